@@ -42,6 +42,14 @@ Theorem C09_run_loops_terminate :
 Proof. exact run_loops_terminate. Qed.
 Print Assumptions C09_run_loops_terminate.
 
+(* terminate() shuts down all access points inside ONE critical section of llc.lock (regenerated fact; this is
+   what makes the LlcLife steps LTermBegin .. LTermEnd exclude every bind / accept-insert in between) *)
+Theorem C09_terminate_one_critical_section :
+  terminate_nesting = ["with self.lock"; "for i in range(63,-1,-1)"; "self.sap[i].shutdown()"; "self.sap[i] = None";
+                       "self.link.SHUTDOWN = True"]%string.
+Proof. exact terminate_one_critical_section. Qed.
+Print Assumptions C09_terminate_one_critical_section.
+
 (* non-vacuity: the skeleton of the repaired RawAccessPoint.recv passes; the one of the unrepaired
    method (state test before the lock is taken) is rejected *)
 Definition unrepaired_raw_recv : stmt :=
